@@ -511,9 +511,15 @@ def ts_type(t, nested=False):
 
 def ts_decl(d, exported=False):
     pre = "export " if exported else ""
+    if d["k"] == "enum":
+        ms = ", ".join(f"M{i} = 'v{i}'" if k == "str" else f"M{i} = {i}" for i, k in enumerate(d["kinds"]))
+        return f'{pre}declare enum {d["name"]} {{ {ms} }}'
+    if d["k"] == "import":
+        return f'import type {{ {d["name"]} }} from "./types"'
     if d["k"] == "alias":
         return f'{pre}type {d["name"]} = {ts_type(d["type"])}'
-    ext = (" extends " + ", ".join(d["extends"])) if d["extends"] else ""
+    parents = list(d["extends"]) + [ts_type(t) for t in d.get("extendsT", [])]
+    ext = (" extends " + ", ".join(parents)) if parents else ""
     return f'{pre}interface {d["name"]}{ext} {{ ' + "; ".join(ts_member(m) for m in d["members"]) + " }"
 
 
